@@ -117,7 +117,18 @@ def annotation_is_a_fresh_instance(F, rep):
         return False
     arm = arms[0][0]
     rets = []
+    # the one exception: the arm for a declaration that is *still Unknown* - reached only from inside the declaration itself (a
+    # type that mentions itself; every other mention is ordered behind the declaration).  There the mention is the declaration's
+    # own node, and every use of the finished declaration copies the whole cycle.
+    from hir import pat_alternatives as _pa, pat_variant as _pv
+    unknown_arm_nodes = set()
+    for m_ in nodes(arm["body"], "Match"):
+        for a_ in m_["arms"]:
+            if all((_pv(x) or "").endswith("ty::Type::Unknown") for x in _pa(a_["pat"])):
+                unknown_arm_nodes |= {id(x) for x in nodes(a_["body"])}
     for r in nodes(arm["body"], "Ret"):
+        if id(r) in unknown_arm_nodes:
+            continue
         v = peel(r.get("e") or {})
         if v.get("k") == "Call" and (callee(v) or "").endswith("Result::Ok") and v["args"]:
             rets.append(v["args"][0])
